@@ -223,6 +223,8 @@ const (
 	c16S1 = "projects/p/subscriptions/s1"
 	c16S2 = "projects/p/subscriptions/s2"
 	c16S3 = "projects/p/subscriptions/s3"
+	c16S4 = "projects/p/subscriptions/s4"
+	c16T3 = "projects/p/topics/t3"
 	c16N1 = "projects/p/snapshots/n1"
 )
 
@@ -267,6 +269,29 @@ func c16Prepare(s *c16Srv, env *c16Env) error {
 	if _, err := s.sub.CreateSnapshot(ctx, &pubsubpb.CreateSnapshotRequest{Name: c16N1, Subscription: c16S1}); err != nil {
 		return err
 	}
+	// s4: its dead-letter topic has been deleted, and a delivery that has used up its
+	// attempts is due (the next pull retires it)
+	if _, err := s.pub.CreateTopic(ctx, &pubsubpb.Topic{Name: c16T3}); err != nil {
+		return err
+	}
+	if _, err := s.sub.CreateSubscription(ctx, &pubsubpb.Subscription{Name: c16S4, Topic: c16T2, DeadLetterPolicy: &pubsubpb.DeadLetterPolicy{DeadLetterTopic: c16T3, MaxDeliveryAttempts: 5}}); err != nil {
+		return err
+	}
+	if _, err := s.pub.Publish(ctx, &pubsubpb.PublishRequest{Topic: c16T2, Messages: []*pubsubpb.PubsubMessage{{Data: []byte(`{"dl":1}`)}}}); err != nil {
+		return err
+	}
+	for i := 0; i < 5; i++ {
+		p4, err := s.sub.Pull(ctx, &pubsubpb.PullRequest{Subscription: c16S4, MaxMessages: 1, ReturnImmediately: true})
+		if err != nil || len(p4.ReceivedMessages) != 1 {
+			return fmt.Errorf("prepare pull s4 #%d: %v %v", i, p4, err)
+		}
+		if _, err := s.sub.ModifyAckDeadline(ctx, &pubsubpb.ModifyAckDeadlineRequest{Subscription: c16S4, AckIds: []string{p4.ReceivedMessages[0].AckId}}); err != nil {
+			return err
+		}
+	}
+	if _, err := s.pub.DeleteTopic(ctx, &pubsubpb.DeleteTopicRequest{Topic: c16T3}); err != nil {
+		return err
+	}
 	return nil
 }
 
@@ -287,7 +312,7 @@ type rpcSpec struct {
 	ignore []string
 }
 
-func nameAlts(valid string, kind string, set func(m proto.Message, v string)) []alt {
+func nameAlts(valid string, kind string, set func(m proto.Message, v string), more ...[2]string) []alt {
 	other := map[string]string{"topics": "subscriptions", "subscriptions": "topics", "snapshots": "topics"}[kind]
 	vals := []struct{ l, v string }{
 		{"valid", valid},
@@ -296,6 +321,9 @@ func nameAlts(valid string, kind string, set func(m proto.Message, v string)) []
 		{"empty", ""},
 		{"five-segments", valid + "/x"},
 		{"no-project", "projects//" + kind + "/a"},
+	}
+	for _, x := range more {
+		vals = append(vals, struct{ l, v string }{x[0], x[1]})
 	}
 	var out []alt
 	for _, x := range vals {
@@ -621,7 +649,8 @@ func c16Specs(env *c16Env) []rpcSpec {
 		{name: "Pull", newMsg: func() proto.Message { return &pubsubpb.PullRequest{ReturnImmediately: true} },
 			ignore: []string{"subscriptions.expires_at", "deliveries.attempt_at", "deliveries.attempts", "deliveries.last_attempted_at"},
 			fields: []field{
-				{"subscription", nameAlts(c16S1, "subscriptions", func(m proto.Message, v string) { m.(*pubsubpb.PullRequest).Subscription = v })},
+				{"subscription", nameAlts(c16S1, "subscriptions", func(m proto.Message, v string) { m.(*pubsubpb.PullRequest).Subscription = v },
+					[2]string{"valid(dead-letter-topic-deleted,exhausted-delivery-due)", c16S4})},
 				{"max_messages", int32Alts(10, func(m proto.Message, v int32) { m.(*pubsubpb.PullRequest).MaxMessages = v })},
 				{"return_immediately", []alt{{"true", func(m proto.Message) {}}, {"false", func(m proto.Message) { m.(*pubsubpb.PullRequest).ReturnImmediately = false }}}},
 			},
@@ -730,7 +759,8 @@ func c16Specs(env *c16Env) []rpcSpec {
 		{name: "StreamingPull", newMsg: func() proto.Message { return &pubsubpb.StreamingPullRequest{StreamAckDeadlineSeconds: 10} },
 			ignore: []string{"subscriptions.expires_at", "deliveries.attempt_at", "deliveries.attempts", "deliveries.last_attempted_at", "deliveries.completed_at"},
 			fields: []field{
-				{"subscription", nameAlts(c16S1, "subscriptions", func(m proto.Message, v string) { m.(*pubsubpb.StreamingPullRequest).Subscription = v })},
+				{"subscription", nameAlts(c16S1, "subscriptions", func(m proto.Message, v string) { m.(*pubsubpb.StreamingPullRequest).Subscription = v },
+					[2]string{"valid(dead-letter-topic-deleted,exhausted-delivery-due)", c16S4})},
 				{"flow", []alt{
 					{"default", func(m proto.Message) {}},
 					{"negative", func(m proto.Message) {
